@@ -70,8 +70,9 @@ type Case struct {
 	// matched by any generated line) precede its real rules: a program that
 	// executes thousands of instructions on every line without any other effect
 	Pads     []int     `json:"pads,omitempty"`
-	Tails    []int     `json:"tails"`          // per program, how its text ends: 0 plainly, 1 trailing top-level stop, 2 "} else { stop }" on the line pattern, 3 a final statement that always raises a runtime error
-	Sock     bool      `json:"sock,omitempty"` // the log glob also matches a unix socket file sorting before the logs
+	Tails    []int     `json:"tails"`               // per program, how its text ends: 0 plainly, 1 trailing top-level stop, 2 "} else { stop }" on the line pattern, 3 a final statement that always raises a runtime error
+	LongLine bool      `json:"long_line,omitempty"` // some file holds a line of 256-400 KiB
+	Sock     bool      `json:"sock,omitempty"`      // the log glob also matches a unix socket file sorting before the logs
 	Files    []File    `json:"files"`
 	Glob     bool      `json:"glob"` // one glob pattern instead of one pattern per file
 	Returned bool      `json:"returned"`
@@ -425,6 +426,13 @@ func genCase(rng *vlib.Rand, big bool) *Case {
 				f.Lines = append(f.Lines, Line{Tag: rng.Intn(3), V: rng.Intn(1000)})
 			}
 		}
+		if n >= 4 && rng.Chance(10) {
+			// a very long line (2-3 read buffers) after a few short ones: the reader has to
+			// grow its buffer while complete lines it has already sent sit in front
+			at := 1 + rng.Intn(3)
+			f.Lines[at] = Line{Junk: true, Rep: 262144 + rng.Intn(140000)}
+			c.LongLine = true
+		}
 		if i == 0 && n >= 2 && rng.Chance(12) {
 			// a CRLF file whose second line has its CR on the last byte of the first
 			// 128 KiB read and its LF on the first byte of the next: the first line is
@@ -506,6 +514,9 @@ func main() {
 		}
 		if len(c.Pads) > 0 {
 			out.Count("long-program(600-900 inert rules)")
+		}
+		if c.LongLine {
+			out.Count("file-with-a-256-400KiB-line")
 		}
 		if len(c.Obs) > 0 {
 			sw := 0
